@@ -204,6 +204,41 @@ func (pp *piecePool) qualify(text, src string) *piece {
 	return p
 }
 
+// clauseLastStmts: statements made of a head and a set of trailing clauses that may come in any order, once with each
+// clause in last position (what a clause parser does when `;` follows directly differs from clause to clause).
+func clauseLastStmts() []string {
+	type fam struct {
+		head    string
+		clauses []string
+	}
+	fams := []fam{
+		{"CREATE DICTIONARY d (id UInt64, v String)", []string{"PRIMARY KEY id", "SOURCE(CLICKHOUSE(TABLE 't'))", "LAYOUT(FLAT())", "LIFETIME(MIN 0 MAX 10)", "SETTINGS(a = 1)", "COMMENT 'c'", "RANGE(MIN a MAX b)"}},
+		{"CREATE TABLE t (a Int8, b String)", []string{"ENGINE = MergeTree", "ORDER BY a", "PARTITION BY b", "PRIMARY KEY a", "SAMPLE BY a", "TTL d + INTERVAL 1 DAY", "SETTINGS index_granularity = 1", "COMMENT 'c'"}},
+		{"CREATE MATERIALIZED VIEW v", []string{"TO t", "ENGINE = Memory", "POPULATE", "AS SELECT 1"}},
+		{"SELECT a FROM t", []string{"WHERE a", "GROUP BY a", "HAVING a", "ORDER BY a", "LIMIT 1", "LIMIT 1 BY a", "OFFSET 1", "SETTINGS a = 1", "FORMAT Null", "INTO OUTFILE 'f'", "WITH TOTALS", "QUALIFY a", "WINDOW w AS ()"}},
+		{"ALTER TABLE t", []string{"ADD COLUMN c Int8", "DROP COLUMN d", "MODIFY TTL a", "MODIFY ORDER BY a", "MODIFY SETTING s = 1", "DELETE WHERE 1", "UPDATE a = 1 WHERE 1", "DROP PARTITION 1", "COMMENT COLUMN a 'c'"}},
+		{"CREATE USER u", []string{"IDENTIFIED BY 'p'", "HOST ANY", "DEFAULT ROLE r", "SETTINGS a = 1", "GRANTEES NONE"}},
+		{"OPTIMIZE TABLE t", []string{"PARTITION 1", "FINAL", "DEDUPLICATE", "DEDUPLICATE BY a"}},
+		{"INSERT INTO t", []string{"(a, b)", "SETTINGS a = 1", "SELECT 1", "VALUES (1, 'x')"}},
+		{"SYSTEM SYNC REPLICA t", []string{"STRICT", "LIGHTWEIGHT", "PULL"}},
+		{"KILL QUERY", []string{"WHERE 1", "SYNC", "ASYNC", "TEST"}},
+		{"GRANT SELECT ON t TO u", []string{"WITH GRANT OPTION", "WITH REPLACE OPTION"}},
+		{"SHOW TABLES", []string{"FROM db", "LIKE 'x'", "LIMIT 1", "NOT LIKE 'y'"}},
+	}
+	var out []string
+	for _, f := range fams {
+		for i, last := range f.clauses {
+			// the head alone with this clause, and with two other clauses in front of it
+			out = append(out, f.head+" "+last)
+			a, b := f.clauses[(i+1)%len(f.clauses)], f.clauses[(i+2)%len(f.clauses)]
+			if a != last && b != last && a != b {
+				out = append(out, f.head+" "+a+" "+b+" "+last)
+			}
+		}
+	}
+	return out
+}
+
 // specialStmts contain `;` inside string literals, quoted identifiers and comments.
 var specialStmts = []string{
 	// statements that END in a token whose scanner looks ahead (alone, the look-ahead meets the end of input; in a script,
@@ -324,6 +359,8 @@ func injectSemiTrivia(r *Rng, text string) (string, bool) {
 }
 
 // pickPiece draws one qualified statement. maxLen bounds its byte length (0 = 2000).
+var clauseLast = clauseLastStmts()
+
 func (pp *piecePool) pickPiece(r *Rng, maxLen int) *piece {
 	if maxLen <= 0 {
 		maxLen = 2000
@@ -344,7 +381,11 @@ func (pp *piecePool) pickPiece(r *Rng, maxLen int) *piece {
 			g := &Gen{r: r}
 			text, src = g.statement(1+r.Intn(3)), "grammar"
 		case c < 88:
-			text, src = pick(r, specialStmts), "special"
+			if r.Chance(1, 2) {
+				text, src = pick(r, clauseLast), "clause-last"
+			} else {
+				text, src = pick(r, specialStmts), "special"
+			}
 		default:
 			var base string
 			if r.Chance(1, 2) {
